@@ -18,7 +18,9 @@ Record flags := { extras : bool;        (* feature grammar-extras *)
                   fix_unroll : bool;    (* fixes/C09-4: unroller ranges without u32 overflow *)
                   (* two repairs made for property C06 change functions modelled here; the model follows whichever the tree has *)
                   fix_lr : bool;        (* left_recursion::check_expr: left side of a sequence always checked, bounded repetitions and tags descended *)
-                  fix_tag : bool }.     (* ParserNode::filter_map_top_down descends into NodeTag (grammar-extras) *)
+                  fix_tag : bool;       (* ParserNode::filter_map_top_down descends into NodeTag (grammar-extras) *)
+                  (* a repair made for property C07 *)
+                  fix_insens : bool }.  (* the ^"..." literal is read from the inner `string` pair, not from the whole `^ ".."` text *)
 
 Inductive loc := LPos (p : nat) | LSpan (a b : nat).
 Inductive ekind :=
@@ -339,7 +341,13 @@ Definition atom (pr : tok) : out pnode :=
   | r_peek_slice => peek_slice_node pr
   | r_identifier => match as_str pr with Some w => ODone (PIdent (tspan pr) w) | None => OPanic end
   | r_string => obind (unescaped pr) (fun s => obind (stripped 1 s) (fun x => ODone (PStr (tspan pr) x)))
-  | r_insensitive_string => obind (unescaped pr) (fun s => obind (stripped 2 s) (fun x => ODone (PInsens (tspan pr) x)))
+  | r_insensitive_string =>
+      if fix_insens fl then
+        match tkids pr with                                     (* pair.clone().into_inner().next().unwrap() *)
+        | literal :: _ => obind (unescaped literal) (fun s => obind (stripped 1 s) (fun x => ODone (PInsens (tspan pr) x)))
+        | [] => OPanic
+        end
+      else obind (unescaped pr) (fun s => obind (stripped 2 s) (fun x => ODone (PInsens (tspan pr) x)))
   | r_range => range_node pr
   | _ => OPanic                                               (* unreachable!("other rule: {:?}", x) *)
   end.
